@@ -5,33 +5,13 @@
 // because it depends on the fields of peer and Upstream). It only adds functions.
 package l4proxy
 
-import (
-	"sync/atomic"
-
-	"github.com/caddyserver/caddy/v2"
-)
+import "sync/atomic"
 
 // VerifPeer is the observable state of one peer.
 type VerifPeer struct {
 	Unhealthy bool
 	Fails     int
 	NumConns  int
-}
-
-// VerifUpstream builds an Upstream with the given peer states without dialing or provisioning.
-// maxFails > 0 attaches a passive health-check policy with that max_fails.
-func VerifUpstream(dial []string, ps []VerifPeer, maxConns, maxFails int) *Upstream {
-	u := &Upstream{Dial: dial, MaxConnections: maxConns}
-	for range ps {
-		u.peers = append(u.peers, &peer{})
-	}
-	if maxFails > 0 {
-		u.healthCheckPolicy = &PassiveHealthChecks{MaxFails: maxFails, FailDuration: caddy.Duration(1)}
-	}
-	for i, p := range ps {
-		u.VerifSetPeer(i, p)
-	}
-	return u
 }
 
 // VerifSetPeer overwrites the state of peer i.
